@@ -31,15 +31,21 @@ TIMEOUT_S = 30
 # others are observed and counted.
 JUDGE_INACTIVE = True
 
-RULE = ('25 well-formed base workflows (chains, diamond, colliding names A/AA/BA/AB, same name in two stages, global/'
+RULE = ('29 well-formed base workflows (chains, diamond, colliding names A/AA/BA/AB, same name in two stages, global/'
         'stage/component/indirect/platform variables, replicate+aggregate, a DoWhile placeholder, direct and '
         'application-dependency references, default/platform blueprints, platform overrides, three "every option '
         'explicit" documents [component, blueprint, override+stage blueprint], stage options/outputs/environments, a '
-        'repeating observer, all reference methods), each for every platform it declares, x EVERY position of each '
+        'repeating observer, all reference methods, variables used only as the index of an array access, a component '
+        'named like an application dependency / like a top-level folder and consumed through stage-qualified '
+        'references, replication inherited by consumers with one- and two-digit replica names), each for every '
+        'platform it declares, x EVERY position of each '
         'single-fault mutation: drop component i; rename the producer of reference j (to a fresh name, name+A, A+name, '
         'name minus last letter and every other component name; consistently in references+arguments / in the '
-        'references list only); add reference u->v for every pair (u,v) with v transitively depending on u, and u=v; '
-        'copy the name of component i into component j of the same stage; misspell every schema key at every nesting '
+        'references list only); point every stage-qualified reference at every other stage of the document and one '
+        'past the last; add reference u->v for every pair (u,v) with v transitively depending on u, and u=v; '
+        'copy the name of component i into component j of the same stage (leaving / re-spelling the references to j); '
+        'call component j like replica k of every replicated component i of its stage (k=0,1,n-1 and the first free '
+        'k=n; references re-spelled) so that identifiers repeat only after expansion; misspell every schema key at every nesting '
         'level (quick: 2 typos down to depth 3 and 1 below, thorough: 3 everywhere); replace every typed value/section '
         'by two (thorough: three for numbers/booleans) values of an unambiguously wrong type; add an unknown key to '
         'every dict whose keys the schema fixes; (thorough) set every schema option the first component does not set '
@@ -72,6 +78,18 @@ ASSUMPTIONS = [
     'component that is not declared in `references`; outputs whose data-in names a dropped component; a DoWhile '
     'whose condition producer was dropped; documents left without any executable component or with a gap in the '
     'stage indices; values of environment variables; None for an option that does not list None',
+    'a reference with an explicit stage prefix names a component even when an application dependency or top-level '
+    'folder has the same name (folders have no stage); without a prefix the folder is meant. Components named like '
+    'the reserved folders input/data/bin/conf are not generated',
+    'replication model: a component is expanded into <name>0..<name>n-1 when it sets replicate n (literal or a '
+    'variable it can see) or consumes from a replicated, non-aggregating component; an aggregating component is not '
+    'expanded; `replica` is defined exactly for expanded components. When replicate/aggregate come from a blueprint '
+    'or override layer, are not integers/booleans, or disagree between producers, nothing that depends on '
+    'replication is judged',
+    'not judged (the statement pairs the rejected faults with what makes a component unusable; these are resolved '
+    'leniently by design and are not part of a component configuration): an undefined variable inside an '
+    'environment value; an output whose data-in names a missing component (key outputs are looked up best-effort '
+    'after the run, possibly in several stages)',
     'dropping a component that nothing references, renaming a reference to another existing producer without '
     'closing a cycle, removing a variable that another applicable layer still defines: recognised as STILL VALID by '
     'the model and only judged for soundness',
@@ -474,7 +492,21 @@ def _sel_stage_weight_word(f):
     return len(path) == 4 and path[:2] == ['doc', 'status-report'] and path[3] == 'stage-weight'
 
 
+def _sel_replica_used_without_replication(f):
+    """`%(replica)s` in a component that is not replicated: validation resolves with is_primitive=True, where an
+    unknown `replica` is always tolerated, so the load succeeds and the component cannot be resolved afterwards."""
+    obs = f.get('observed') or {}
+    und = obs.get('undefined') or []
+    if f['case'].get('entry') != 'F' or obs.get('faults') != ['undefined-variable'] or not und \
+            or any(v != 'replica' for _, v in und):
+        return False
+    if f.get('sig') == 'F:accepted:undefined-variable':
+        return True
+    return f.get('sig') == 'F:unsound:graph-build-raises:FlowIRVariableUnknown' and '"replica"' in str(obs.get('obs'))
+
+
 KNOWN_SELECTORS = {
+    'replica_used_without_replication': _sel_replica_used_without_replication,
     'sections_validated_after_instantiation': _sel_sections_validated_after_instantiation,
     'component_layers_validated_after_instantiation': _sel_component_layers_validated_after_instantiation,
     'import_entry_errors_dropped': _sel_import_entry_errors_dropped,
